@@ -983,7 +983,10 @@ func c03Judge(r *verifkit.Run, caseIdx int, desc string, p c03Params, ops []veri
 		}
 		r.Count("porcupine.ops_checked", len(hist))
 		r.Count("porcupine.ops_dropped_no_effect", dropped)
+		pt0 := time.Now()
 		res, info := porcupine.CheckOperationsVerbose(c03Model, hist, 60*time.Second)
+		r.Max("porcupine.max_check_ms", int(time.Since(pt0).Milliseconds()))
+		r.Count("porcupine.total_check_ms", int(time.Since(pt0).Milliseconds()))
 		switch res {
 		case porcupine.Ok:
 			r.Count("porcupine.ok", 1)
@@ -1082,9 +1085,6 @@ func TestVerifC03(t *testing.T) {
 		}
 		i := i
 		t0 := time.Now()
-		if os.Getenv("C03_DEBUG") != "" {
-			defer func(i int) {}(i)
-		}
 		ok := verifkit.Watchdog(c03WatchdogDur(), func() { c03RunCase(r, i) })
 		if os.Getenv("C03_DEBUG") != "" {
 			fmt.Fprintf(os.Stderr, "C03TIME case=%d ms=%d\n", i, time.Since(t0).Milliseconds())
